@@ -39,6 +39,9 @@ CLAIMED = {
           "Coq proof (structural induction over layers and the epoch loop) + differential run + flag/twin oracle", "3/C09"),
  "C02": C("Coq theorems, for every configuration (non-square inputs and kernels, asymmetric stride/padding/dilation) and any number structure: the dense layer returns activation(W x + b) with each row sum taken left to right; the convolution returns the zero-padded, strided, dilated cross-correlation (the bounds guard of the loop is proved always true, so no tap is dropped); the deconvolution returns, per output cell, the sum of x[c][i][j]*K[k][c][oi+p-i*s][oj+p-j*s] with output extent (i-1)*s+k-2p; the max-pool returns for each window a value that dominates every window element and is attained at the recorded coordinates (proved over the reals and over all finite binary32 inputs); a flat vector is re-chunked to exactly the tensor it was flattened from, so the three spatial layers give identical results for both representations; a network without skip/loop connections predicts the left-to-right composition of its layers. Tie: every layer kind x configuration lattice x both representations, plus sequential networks, compared with the implementation (1e-4; in practice bit-exact); falsifier: independent direct-definition implementations in f64.",
           "Coq proof (index arithmetic, list/chunk lemmas, order reasoning with Flocq) + differential run + reference operators", "3/C02"),
+ "C08": C("Coq theorems for every configuration: a size computation that succeeds IS the standard formula under its guard (conv: (i+2p-d(k-1)-1)/s+1, deconv: (i-1)s+k-2p, pool: (i-k)/s+1); for a layer returned by the constructor (kernels drawn by the constructor proved to have the requested dimensions) the pre-activation the forward pass produces has exactly the announced output shape, for convolution, deconvolution, max-pool and dense layers; the builders give each new layer the previous layer's output shape and switch the previous spatial layer to flatten before a dense layer of exactly c*h*w inputs; flatten is the row-major sequence and a flat vector of c*h*w elements is re-read as the tensor with that row-major sequence (nothing lost); a flat size is accepted only as 1 x r x r with r*r = size and rejected when it is no perfect square; over binary32, r*r is accepted for every r <= 8192 (finite sweep evaluated by the kernel, bound in the statement); kernel/weight/input gradients have the dimensions of the kernels/weights/input. Tie + falsifier: configuration lattice incl. odd sizes, non-dividing strides, large paddings, dense->spatial transitions, non-square flat sizes; announced vs produced shapes and panics compared exactly.",
+          "Coq proof (nat arithmetic, constructor/forward refinement, vm_compute sweep for the f32 square root) + exact differential run", "3/C08",
+          "The acceptance of r*r beyond r = 8192 is not proved (it depends on binary32 rounding of sizes above 2^26)."),
 }
 PENDING = {}
 
